@@ -1390,6 +1390,9 @@ class SVG:
             # https://github.com/googlefonts/picosvg/issues/269 remove empty subpaths *after* rounding
             self.remove_empty_subpaths(inplace=True)
             self.remove_unpainted_shapes(inplace=True)
+            if drop_unsupported:
+                # dropping an element can also leave its group with too few children
+                self.checkpicosvg(allow_text=allow_text, drop_unsupported=True)
             if not self._remove_redundant_groups():
                 break
         # the dropped shapes may have been the only users of a gradient
